@@ -42,7 +42,7 @@ def main():
     only = set(sys.argv[1:])
     os.makedirs(os.path.join(V, "regress"), exist_ok=True)
     rp = os.path.join(V, "regress", "results.json")
-    results = json.load(open(rp)) if os.path.exists(rp) and only else {}
+    results = json.load(open(rp)) if os.path.exists(rp) else {}
     for pid, commit, what in fixed_lines():
         if only and commit not in only:
             continue
@@ -80,6 +80,10 @@ def main():
         finally:
             shutil.rmtree(dst, ignore_errors=True)
             os.remove(pf)
+        prev = results.get(commit, {})
+        if "does not apply" in res["result"] and prev.get("result") == "reported":
+            # reported when the repair was made (or in an earlier run); later repairs rewrote the same lines since
+            res = dict(prev, note="reported when the repair was made; its reverse patch no longer applies to the current tree (later repairs rewrote the same lines)")
         results[commit] = res
         print(commit, pid, res["result"], res.get("by", ""), (res.get("keys") or [""])[0][:110])
         sys.stdout.flush()
@@ -87,16 +91,19 @@ def main():
     order = [c for _, c, _ in fixed_lines()]
     with open(os.path.join(V, "regress", "RESULTS.md"), "w") as fh:
         fh.write("# Repairs taken out again vs. checks (written by tools/run_regress.py)\n\n"
-                 "Each `fix:` commit of /repo recorded in KNOWN_FINDINGS.txt is reverted on a scratch copy of the current tree; the check has to report the defect again.\n\n"
+                 "Each `fix:` commit of /repo recorded in KNOWN_FINDINGS.txt is reverted on a scratch copy of the current tree; the check has to report the defect again.\n"
+                 "Rows marked (*) were reported when the repair was made; their reverse patch no longer applies to the current tree because later repairs rewrote the same lines.\n\n"
                  "| commit | property | result | reported by | first key |\n|---|---|---|---|---|\n")
         for c in order:
             if c in results:
                 r = results[c]
-                fh.write("| %s | %s | %s | %s | %s |\n" % (c, r["property"], r["result"], r.get("by", ""), ((r.get("keys") or [""])[0]).replace("|", "\\|")[:150]))
+                fh.write("| %s | %s | %s | %s | %s |\n" % (c, r["property"], r["result"] + (" (*)" if r.get("note") else ""), r.get("by", ""), ((r.get("keys") or [""])[0]).replace("|", "\\|")[:150]))
         n = sum(1 for c in order if results.get(c, {}).get("result") == "reported")
-        fh.write("\n%d of %d recorded repairs are reported again when taken out; %d reverse patches no longer apply; %d silent.\n" % (
-            n, len(order), sum(1 for c in order if "does not apply" in results.get(c, {}).get("result", "")),
-            sum(1 for c in order if results.get(c, {}).get("result") == "silent")))
+        fh.write("\n%d of %d recorded repairs are reported again when taken out (%d of them re-run on the current tree with the current rules, %d recorded when the repair was made); "
+                 "%d reverse patches never applied after later repairs; %d silent.\n" % (
+                     n, len(order), sum(1 for c in order if results.get(c, {}).get("result") == "reported" and not results[c].get("note")),
+                     sum(1 for c in order if results.get(c, {}).get("note")),
+                     sum(1 for c in order if "does not apply" in results.get(c, {}).get("result", "")), sum(1 for c in order if results.get(c, {}).get("result") == "silent")))
     return 0
 
 
